@@ -84,4 +84,12 @@ FreeHasNoHolder == \A i \in 1..Len(free) : holder[free[i]] = None
 FreeDistinct == \A i, j \in 1..Len(free) : i # j => free[i] # free[j]
 HeldNotFree == \A b \in Buf : holder[b] # None => \A i \in 1..Len(free) : free[i] # b
 
+
+(* refinement: the LIFO pool implements the unbounded abstract pool, whose safety invariant is PROVED inductive *)
+(* (DecPoolAbs.tla, TLAPS) for any number of goroutines and buffers; TLC checks the refinement on MC_Pool's instances *)
+Abs == INSTANCE DecPoolAbs WITH Buf <- Buf,
+                                held <- {<<holder[b], b>> : b \in {c \in Buf : holder[c] # None}},
+                                free <- {free[i] : i \in 1..Len(free)},
+                                made <- 1..made
+Refines == Abs!ASpec
 =============================================================================
